@@ -336,6 +336,23 @@ void op_add(const Step& s) {
 	after_mutation(s, "et_add");
 }
 
+// CopyTransitionsFrom: the rules of another automaton that satisfy a client predicate are added to this one
+void op_copy_from(const Step& s) {
+	size_t i = HI(s, 0), j = HI(s, 1); Client& c = CL(s); if (i == j) throw Skip();
+	ETH& h = c.et[i]; ETH& src = c.et[j];
+	if (h.alpha != src.alpha) throw Skip();                     // symbol numbers are copied as they are
+	drop_iters_of(c, h.aut.get());
+	if (is_shared(c, h)) count(c_cow_writes_on_shared);
+	struct Pred : ET::AbstractCopyF { uint64_t salt; long mode; virtual bool operator()(const ET::Transition& t) { if (mode == 0) return true; if (mode == 1) return t.GetChildren().empty(); return (mix64(uint64_t(t.GetParent()) * 31 + t.GetChildren().size(), salt) & 1) != 0; } } pred;
+	pred.salt = uint64_t(s.arg(2)); pred.mode = mod(s.arg(3), 3);
+	TA add;
+	for (const Rule& r : src.model.rules) { bool take = pred.mode == 0 ? true : (pred.mode == 1 ? r.ch.empty() : (mix64(uint64_t(r.parent) * 31 + r.ch.size(), pred.salt) & 1) != 0); if (take) add.rules.insert(r); }
+	api_begin();
+	h.aut->CopyTransitionsFrom(*src.aut, pred);
+	h.model.rules.insert(add.rules.begin(), add.rules.end());
+	after_mutation(s, "et_copy_from");
+}
+
 void op_final(const Step& s) {
 	ETH& h = H(s, 0);
 	drop_iters_of(CL(s), h.aut.get());
@@ -1217,7 +1234,7 @@ void register_expl_ops() {
 	register_op("et_copy", op_copy); register_op("et_copy_partial", op_copy_partial); register_op("et_assign", op_assign);
 	register_op("et_move_assign", op_move_assign); register_op("et_move_ctor", op_move_ctor);
 	register_op("et_destroy", op_destroy); register_op("et_give", op_give);
-	register_op("et_add", op_add); register_op("et_final", op_final); register_op("et_finals", op_finals);
+	register_op("et_add", op_add); register_op("et_copy_from", op_copy_from); register_op("et_final", op_final); register_op("et_finals", op_finals);
 	register_op("et_erase_finals", op_erase_finals); register_op("et_clear", op_clear);
 	register_op("it_begin", op_it_begin); register_op("it_next", op_it_next); register_op("it_drop", op_it_drop); register_op("it_copy", op_it_copy);
 	register_op("et_observe", op_observe);
